@@ -304,6 +304,119 @@ def check_concrete_lift(chk, F):
         chk.fail(rid, "check_timelocks|unanalysable", "unanalysable: %s" % e, where, kind="unanalysable")
 
 
+# ---- R07.5 lifted policy vs execution ---------------------------------------------------------------------------------
+
+def _lift_work(args):
+    """(text, ctx) -> (text, n_cases, [discrepancy]) : parse + lift by evaluation, compare with the reference execution"""
+    import itertools
+    import sys as _sys
+    from .. import facts, textmodel as tm
+    from ..interp import Machine, Adt, Panic
+    from . import c06, c13, c18, e2e
+    tm.sys_path_spec()
+    import policy_sem as PS
+    X = c13.X
+    F = facts.load()
+    text, ctx = args
+    T_ = c06.Typer(F)
+    m = T_.m
+    out = []
+    try:
+        tr = tm.parse_tree(F, m, text)
+        ri = m.call_path(T_.root, [tr.fields["0"]])
+        st = "miniscript::private::Miniscript<std::string::String, %s>" % c06.CTX[ctx]
+        r = m.call_callee({"def": "expression::FromTree::from_tree", "resolved": T_.ft, "name": "from_tree",
+                           "trait": "expression::FromTree",
+                           "resolved_container": "miniscript::<impl expression::FromTree for miniscript::private::Miniscript<Pk, Ctx>>",
+                           "self_ty": st, "targs": [st]}, [ri])
+        if not (isinstance(r, Adt) and r.variant == "Ok"):
+            return text, 0, [("skip", "not accepted by the library's parser: %s" % repr(r)[:120])]
+        lp = lift_impl(F, "miniscript::private::Miniscript")
+        lr = m.call_callee({"def": lp, "resolved": lp, "name": "lift", "targs": [], "self_ty": st}, [r.fields["0"]])
+        if not (isinstance(lr, Adt) and lr.variant == "Ok"):
+            return text, 0, [("skip", "lift refused: %s" % repr(lr)[:120])]
+        pol = c18.from_lib(lr.fields["0"])
+    except Unsupported as e:
+        return text, 0, [("unanalysable", "unanalysable: %s" % e)]
+    except Panic as e:
+        return text, 0, [("bad", "panic in parse / lift: %s" % e)]
+    ast = X.parse(text)
+    sc = X.script(ast, ctx)
+    keys, hashes = e2e.keys_hashes(ast)
+    sats, _ = X.witnesses(ast, ctx, cap=60)
+    locks = X.locks(ast)
+    lts = sorted(set([0] + [n for k, n in locks if k == "After"]))
+    sqs = sorted(set([0] + [n for k, n in locks if k == "Older"]))
+    n = 0
+    for r_ in range(len(keys) + 1):
+        for ks in itertools.combinations(keys, r_):
+            for hs in ([set()] if not hashes else [set(c) for q in range(len(hashes) + 1) for c in itertools.combinations(hashes, q)]):
+                for lt, sq in itertools.product(lts, sqs):
+                    n += 1
+                    assets = {"keys": set(ks), "pre": set(hs)}
+                    tx = X.Tx(lock_time=lt, sequence=sq)
+                    spendable = False
+                    for w in sats:
+                        if e2e.uses_only(w, assets):
+                            acc, _, _ = X.execute(sc, w, tx, ctx)
+                            if acc:
+                                spendable = True
+                                break
+                    env = {}
+                    for a in PS.atoms(pol):
+                        if a[0] == "key":
+                            env[a] = a[1] in assets["keys"]
+                        elif a[0] == "hash":
+                            env[a] = a[2] in assets["pre"]
+                        elif a[0] == "older":
+                            env[a] = PS.rel_implied(a[1], sq)
+                        else:
+                            env[a] = PS.abs_implied(a[1], lt) and sq != 0xffffffff
+                    says = PS.ev(pol, env)
+                    if says != spendable:
+                        out.append(("bad", "keys=%s preimages=%s nLockTime=%d nSequence=%d: the lifted policy %r says %s, "
+                                           "the script is %s with these assets" % (sorted(ks), sorted(hs), lt, sq, pol, says,
+                                                                                 "spendable" if spendable else "not spendable")))
+                        if len(out) > 3:
+                            return text, n, out
+    return text, n, out
+
+
+def check_lift_vs_execution(chk, F):
+    import multiprocessing as mp
+    import os as _os
+    from . import e2e
+    rid = "R07.5"
+    chk.rule(rid, "whole scripts (the ~60 scripts of the satisfier family, both contexts): the policy obtained by evaluating "
+                  "the library's parser and Miniscript::lift is true for a set of owned keys, known preimages, nLockTime and "
+                  "nSequence exactly when some canonical witness built from those assets makes the specification's script "
+                  "succeed in the reference execution (every subset of keys x every subset of preimages x every lock "
+                  "threshold of the script)")
+    fam = list(e2e.FAMILY)
+    if chk.tier != "quick":
+        from . import decoder, c13
+        fam += [x for x in decoder.EXTRA_SCRIPTS if x not in fam]
+        fam += [x for x in c13.generated_scripts(F, "segwitv0", limit=80) if x not in fam]
+    with mp.Pool(min(16, _os.cpu_count() or 4)) as pool:
+        res = pool.map(_lift_work, fam, chunksize=2)
+    n_cases = n_scripts = 0
+    for text, n, out in res:
+        kinds = set(k for k, _ in out)
+        if "skip" in kinds:
+            continue
+        n_scripts += 1
+        n_cases += n
+        if "unanalysable" in kinds:
+            chk.fail(rid, "unanalysable:" + text, out[0][1], kind="unanalysable")
+            continue
+        bad = [msg for k, msg in out if k == "bad"]
+        chk.obligation(rid, not bad, text, "%d case(s); first: %s" % (len(bad), bad[0] if bad else ""), where="src/policy/mod.rs",
+                       detail=bad[:4])
+    chk.extra["R07.5_cases"] = n_cases
+    chk.floor(rid, "scripts lifted", n_scripts, 50)
+    chk.floor(rid, "asset / lock cases", n_cases, 300)
+
+
 def run(chk):
     F = chk.facts()
     chk.explanation = (
@@ -322,3 +435,4 @@ def run(chk):
     # every lift ends with `.normalized()`: it must not change the meaning (rule shared with C18)
     from . import c18
     chk.guard("R07.4", "normalized", c18.check_normalized_small, chk, F, "R07.4")
+    chk.guard("R07.5", "lift-vs-execution", check_lift_vs_execution, chk, F)
